@@ -361,6 +361,9 @@ def c05e(ctx):
         # spawn's argument derives from take(), and spawn is on the Some branch, and every Some path spawns
         if "future" not in df.access_path(d, sp[0].node["args"][0]) or not d.site_dominates(tk[0], sp[0]):
             ctx.fail(o, sp[0], "the spawned future is not the one taken out of the Guard")
+        if d.must_pass([0], [tk[0].bb]):
+            ctx.fail(o, tk[0], "Drop for Guard can return without taking the unfinished future (an early exit before take()): a guarded block dropped on that path is abandoned "
+                     "half way (e.g. during the unwinding of a SIBLING's panic) instead of being run to completion")
         g = df.guarded_by(d, sp[0].bb, lambda c: c.kind == "disc" and c.adt == "core::option::Option")
         some_edges = [(sb, tb) for sb, v, tb, c in g if v == 1]
         if not some_edges:
